@@ -22,7 +22,9 @@ MANIFEST = {
             "attribute of the result holds what the converter of its declared type makes of the child carrying its tag - nothing missing, nothing invented, same place "
             "(from_etree_places_values). The value clause is decided against an independent implementation of the OFX type rules: documents for every concrete class are "
             "written by the generator itself from typed values (all date-time notations and offsets, both decimal separators, signs, entity escapes, every enumeration "
-            "token), parsed and converted by the library, and walked to (path, value) pairs.",
+            "token), parsed and converted by the library, and walked to (path, value) pairs. file_places_typed_values_v1/_v2 compose the header engine (C05), the "
+            "tokenizer (C02) and the typed placement theorem over the BYTES of a file in any declared codec; the file-level stream writes such files (CHARSET 1252 / "
+            "ISO-8859-1 / NONE, version 2) and reads them through OFXTree.parse + convert.",
     "note": "Trusted: Coq kernel; hand transcription Model/Convert.v validated by correspondence (CFrom cases on the generated documents); the python oracle of the type rules. "
             "Print Assumptions: closed under the global context.",
 }
